@@ -5,8 +5,8 @@ import "obsa/eng"
 
 type Prop struct {
 	ID          string
-	Explanation string   // what the rules decide (goes to evidence)
-	NotDecided  string   // what they do not decide
+	Explanation string // what the rules decide (goes to evidence)
+	NotDecided  string // what they do not decide
 	Run         func(c *eng.Ctx, thorough bool)
 }
 
